@@ -219,6 +219,11 @@ def run(prog: Program, rep, thorough: bool) -> None:
     F = IntegrateFacts(prog)
     rc = F.record_calls[0] if F.record_calls else None
     ctor = [c for c in ast.walk(F.func.node) if isinstance(c, ast.Call) and norm(c.func) == '_TrajectoryDataFilter']
+    if len(F.func.positional) != 6:
+        raise AnalysisError(f'_integrate takes {F.func.positional}: not (self, shot, range, record step, flags, time step) - which '
+                            f'parameter is the record step is not readable')
+    if not ctor:
+        raise AnalysisError('_integrate does not build the record filter itself: the step it is given is not readable here')
     step_p = F.func.positional[3]
     kw = {k.arg: norm(k.value) for c in ctor for k in c.keywords}
     if ctor and (kw.get('range_step') == step_p or (len(ctor[0].args) > 1 and norm(ctor[0].args[1]) == step_p)):
